@@ -546,6 +546,77 @@ def single_file_case(rec, rng):
         shutil.rmtree(base, ignore_errors=True)
 
 
+def two_placeholder_case(rec, rng):
+    """Two user placeholders (satellite in a directory level, mode in the file name): filters with several
+    white- and black-list entries at once, and exclusion periods that are replaced on the live object."""
+    from typhon.files import FileSet
+    base = scratch_dir("c01t")
+    try:
+        tmpl = base + "/{sat}/{year}{month}{day}_{hour}{minute}{second}-{end_hour}{end_minute}{end_second}_{mode}.dat"
+        day = dt.datetime(2018, rng.randrange(1, 13), rng.randrange(1, 28))
+        files = []
+        for k in range(rng.choice([6, 10, 16])):
+            t0 = day + dt.timedelta(minutes=rng.randrange(0, 1300))
+            t1 = t0 + dt.timedelta(minutes=rng.choice([0, 5, 30]))
+            sat, mode = rng.choice(["A", "B", "C"]), rng.choice(["test", "op", "x"])
+            name = "%s/%s/%s-%s_%s.dat" % (base, sat, t0.strftime("%Y%m%d_%H%M%S"), t1.strftime("%H%M%S"), mode)
+            if any(f[0] == name for f in files):
+                continue
+            os.makedirs(os.path.dirname(name), exist_ok=True)
+            open(name, "w").write("x")
+            files.append((name, t0, t1, sat, mode))
+        fs = FileSet(path=tmpl, name="two")
+        s, e = day - dt.timedelta(hours=1), day + dt.timedelta(days=1, hours=1)
+
+        def allowed(f, flt):
+            for k, v in (flt or {}).items():
+                vals = [v] if isinstance(v, str) else list(v)
+                val = f[3] if k.lstrip("!") == "sat" else f[4]
+                if k.startswith("!") and val in vals:
+                    return False
+                if not k.startswith("!") and val not in vals:
+                    return False
+            return True
+
+        def run(flt, periods, what):
+            rec.ev()
+            rec.count("two_placeholders.find_calls")
+            case = {"kind": "two-placeholders", "filters": flt, "what": what,
+                    "files": [[os.path.relpath(f[0], base), f[1].isoformat(), f[2].isoformat()] for f in files]}
+            try:
+                got = sorted(os.fspath(x) for x in fs.find(s, e, filters=None if flt is None else dict(flt),
+                                                           no_files_error=False))
+            except Exception as exc:
+                rec.violation("find-exception", case, {"exception": repr(exc),
+                                                       "trace": traceback.format_exc()[-1000:]})
+                return
+            want = sorted(f[0] for f in files if allowed(f, flt)
+                          and not any(f[1] <= p1 and f[2] >= p0 for p0, p1 in periods))
+            if got != want:
+                rec.violation("find-wrong-answer", case,
+                              {"why": "set differs", "missing": [os.path.basename(x) for x in set(want) - set(got)][:5],
+                               "extra": [os.path.basename(x) for x in set(got) - set(want)][:5],
+                               "excluded_periods": [[str(a), str(b)] for a, b in periods]})
+            elif want and len(want) < len(files):
+                rec.nontriv(["two-placeholders", what, sorted(flt or {})], [what, len(files)])
+        for flt in (None, {"!sat": "A", "!mode": "test"}, {"!mode": "test", "!sat": "A"},
+                    {"sat": ["A", "B"], "!mode": "x"}, {"!sat": ["A", "C"], "!mode": ["test", "x"]},
+                    {"sat": "B", "mode": "op"}):
+            run(flt, [], "filters")
+        # exclusion periods replaced on the live object (after it has searched with the first ones)
+        p1 = (day + dt.timedelta(hours=2), day + dt.timedelta(hours=8))
+        p2 = (day + dt.timedelta(hours=14), day + dt.timedelta(hours=20))
+        fs.exclude_times([p1])
+        run(None, [p1], "exclude P1")
+        fs.exclude_times([p2])
+        run(None, [p2], "exclude P2 after P1")
+        run({"!sat": "B", "!mode": "op"}, [p2], "exclude P2 + filters")
+        fs.exclude_times(None)
+        run(None, [], "exclusion lifted")
+    finally:
+        shutil.rmtree(base, ignore_errors=True)
+
+
 def gen_group(rng):
     mode = rng.randrange(4)
     if mode == 0:  # metamorphic: one population, several directory layouts, full end fields
@@ -588,10 +659,16 @@ def run_shard(spec, rec):
             rec.sample({k: (v if k != "files" else v[:5]) for k, v in case.items()})
         run_group(rec, rng, case)
         single_file_case(rec, rng)
+        if i % 10 == 0:
+            two_placeholder_case(rec, rng)
     treewrap.uninstall()
 
 
 def replay(case, rec):
+    if case.get("kind") == "two-placeholders":
+        for k in range(6):
+            two_placeholder_case(rec, rng_for(k, "c01-two-replay"))
+        return
     if case.get("kind") == "single":
         return
     rng = rng_for(0, "replay")
